@@ -531,7 +531,19 @@ func run(rt *rapid.T, steps []step, g sim.Geometry) (fail string, w *world) {
 				}
 				w.lab("overlong-answer")
 			case "answer-misplaced":
-				begin = (rq.Begin + 16384) % uint32(x.PieceSize)
+				switch s.I % 3 {
+				case 0:
+					begin = (rq.Begin + 16384) % uint32(x.PieceSize)
+				case 1:
+					// a byte off, inside the block that was asked for: it answers the
+					// request and cannot be stored
+					begin = rq.Begin + 1
+					w.lab("misplaced-answer-inside-the-requested-block")
+				default:
+					// beyond the end of the piece: it maps to a block of a later piece
+					begin = uint32(x.PieceSize) + rq.Begin
+					w.lab("misplaced-answer-beyond-the-piece")
+				}
 				w.lab("misplaced-answer")
 			default:
 				if s.I%5 == 0 {
